@@ -48,6 +48,9 @@ OBJECTS = [
     ("scalar-only", lambda: {"x": 1, "y": [1, 2, 3]}),
 ]
 PAYLOADS = ["open(%r, 'a').write('x')" % COUNTER,
+            # fewer than 256 characters but more than 255 bytes of UTF-8 (and more than 255 characters): the length classes of the text opcodes
+            "open(%r, 'a').write('x')  # %s" % (COUNTER, "漢字" * 60),
+            "open(%r, 'a').write('x')  # %s" % (COUNTER, "é" * 300),
             "open(%r, 'a').write('x')  # café \\ 'quote' \"dq\"" % COUNTER,
             "[open(%r, 'a').write('x'), 123][1]" % COUNTER]
 
